@@ -30,6 +30,7 @@ RULE = ("typed generator over all functions any SQL dialect implements, composed
         "filter has >= 2 operator/call nodes and was translated")
 RULE += (" " + 'Also: schema-name shapes (leading underscores, upper case, 127 characters); literal spellings outside the ABNF; equal-by-value operands lane; every translation repeated on one long-lived visitor per dialect with table_alias re-pointed.')
 RULE += (" " + 'Signed-literal lane: 1..3 unary minus over 13 signed literal spellings (every zero) x 6 positions x alias.')
+RULE += (" " + 'Alias-shape lane: 15 aliases equal to / case variants of / prefixes and extensions of field names, SQL words, odd characters x 8 filters x 3 dialects.')
 ASSUMPTIONS = ["vpmon/ref/sql_parse.py: OR < AND < NOT < comparison < || < + - < * / % < "
                "unary minus; comparison operators do not chain",
                "AND/OR chains are compared modulo associativity (x AND (y AND z) may be emitted "
